@@ -17,12 +17,17 @@
 //!                          against Storage::load_storage_and_trailer + resolve (+ file_range, raw length)
 //!   c17.scanlist(.outside) the same documents × prefixes (and with a startxref beyond the file): the model's `scan`
 //!                          with a word scanner as item parser against the items and stream ranges of Storage::scan
+//!   c17.xrefc.tail/.outside the same buffers through `locateXrefC` (locate_xref_offset on the lexer of Model/Lexer.lean)
+//!   c17.readobj            every object of generated documents behind a prefix, read in the call shape of resolve_ref's
+//!                          direct branch (suffix at start + offset, lexer offset = that position, parse_indirect_object):
+//!                          Model/Parser.lean (`c03.parse ind0`) against the implementation
 //!   c17.load.outside       the same documents with damaged offsets (beyond the file, near 2^64, /Prev loops,
 //!                          bad /Size, index out of range, /Length pointing at the wrong kind)
 //! Oracles (the implementation against the property itself):
 //!   c17.header             locate_start_offset(p ++ f) = |p| for marker-free p, |p| ≤ 1019
 //!   c17.prefix             corpus + generated files × prefixes: trailer, every object (streams by
 //!                          dictionary and raw data), page count and page dictionaries identical for f and p ++ f
+//!   c17.offset             the real parser, same suffix, lexer offset q against |p| + q: same value, ranges |p| further on
 //!   c17.scan               `Storage::scan` lists the same items for f and p ++ f, and for generated files
 //!                          exactly the objects that were written
 
@@ -300,14 +305,20 @@ fn xref_streams(driver: &Driver, seed: u64, thorough: bool, rep: &mut Report) {
     for (name, conformant, n) in [("c17.xref.tail", true, if thorough { 40_000 } else { 4000 }), ("c17.xref.outside", false, if thorough { 40_000 } else { 4000 })] {
         let mut st = Stream::new(name, conformant);
         let mut cases = vec![];
+        let mut cases_c = vec![];
         for case in 0..n {
             let mut rng = Rng::derive(seed, name, case);
             let (b, what) = xref_tail(&mut rng, conformant);
             st.count(&format!("kind={}", what));
             cases.push((format!("c17.xref {}", hex(&b)), real_xref(&b), true));
+            cases_c.push((format!("c17.xrefc {}", hex(&b)), real_xref(&b), true));
         }
         run_stream(driver, &mut st, cases);
         rep.streams.push(st);
+        // the same buffers through `locateXrefC` (the lexer of Model/Lexer.lean)
+        let mut stc = Stream::new(&name.replace("c17.xref", "c17.xrefc"), conformant);
+        run_stream(driver, &mut stc, cases_c);
+        rep.streams.push(stc);
     }
 }
 
@@ -806,6 +817,71 @@ pub fn scan_streams(driver: &Driver, seed: u64, thorough: bool, rep: &mut Report
     }
 }
 
+/// move every stream range of a harness value back by `k`
+fn unshift_val(v: &crate::c03::render::Val, k: usize) -> crate::c03::render::Val {
+    use crate::c03::render::Val;
+    let ent = |kvs: &Vec<(Vec<u8>, Val)>| kvs.iter().map(|(a, b)| (a.clone(), unshift_val(b, k))).collect::<Vec<_>>();
+    match v {
+        Val::Arr(xs) => Val::Arr(xs.iter().map(|x| unshift_val(x, k)).collect()),
+        Val::Dict(kvs) => Val::Dict(ent(kvs)),
+        Val::StreamPending(kvs, d) => Val::StreamPending(ent(kvs), d.clone()),
+        Val::StreamInFile(kvs, i, g, a, b) => Val::StreamInFile(ent(kvs), *i, *g, a.wrapping_sub(k), b.wrapping_sub(k)),
+        x => x.clone(),
+    }
+}
+
+/// c17.readobj: `resolve_ref`'s direct branch in its literal call shape — the suffix at `start + offset`, lexer
+/// offset = that position, `parse_indirect_object` — model (`c03.parse ind0`, Model/Parser.lean) against the
+/// implementation, on every object of generated documents behind a prefix.
+/// Oracle c17.offset: the implementation, same suffix, lexer offset `q` against `|p| + q`: the same value,
+/// every `file_range` `|p|` further on (`file_offset_only_moves_ranges` on the real parser).
+pub fn readobj_streams(driver: &Driver, seed: u64, thorough: bool, rep: &mut Report) {
+    let mut st = Stream::new("c17.readobj", true);
+    let mut or = Oracle::new("c17.offset");
+    let n = if thorough { 6000 } else { 300 };
+    let mut cases = vec![];
+    for case in 0..n {
+        let mut rng = Rng::derive(seed, "c17.readobj", case);
+        let doc = gen_doc(&mut rng, true, Damage::None);
+        let l = pick_prefix_len(&mut rng);
+        let (p, _) = gen_prefix(&mut rng, l);
+        let mut buf = p.clone();
+        buf.extend_from_slice(&doc.bytes);
+        // the resolver's answers for indirect lengths
+        let lens: crate::c03::LenMap = doc.written.iter().filter_map(|x| match x { Written::Stream { len_id, len, how, .. } if !matches!(how, LenHow::Direct) => Some(((*len_id, 0), *len)), _ => None }).collect();
+        for x in &doc.written {
+            let off = match x { Written::Plain { off, .. } | Written::Stream { off, .. } => *off as usize };
+            let q = l + off;
+            let suffix = &buf[q..];
+            if suffix.len() > 6000 { continue; }
+            st.count(match x { Written::Plain { .. } => "object=plain", Written::Stream { .. } => "object=stream" });
+            let req = crate::c03::parse_request("ind0", suffix, 0, 1023, q, &lens, None);
+            cases.push(req);
+            // oracle on the implementation alone: offset q - l (the un-prefixed file) against offset q
+            let a = crate::c03::imp_parse("ind0", suffix, 0, 1023, off, &lens, None);
+            let b = crate::c03::imp_parse("ind0", suffix, 0, 1023, q, &lens, None);
+            or.case(&format!("{}@{}", case, off), l > 0, || json!({"case": case, "offset": off, "prefix_len": l, "result": trunc(&a.text)}));
+            let same = match (&a.val, &b.val) {
+                (Some(va), Some(vb)) => crate::c03::render::show_canon(va) == crate::c03::render::show_canon(&unshift_val(vb, l)) && a.id == b.id && a.pos == b.pos,
+                (None, None) => a.text == b.text,
+                _ => false,
+            };
+            if !same {
+                or.fail("offset-changes-value", &format!("the object at offset {} parses to {} with lexer offset {} and to {} with lexer offset {}", off, trunc(&a.text), off, trunc(&b.text), q),
+                    json!({"stream": "c17.readobj", "seed": seed, "case": case, "offset": off, "prefix_len": l, "suffix_hex": hex(suffix)}));
+            }
+        }
+    }
+    let resp = driver.ask(&cases);
+    for (rq, m) in cases.iter().zip(resp.iter()) {
+        let (mm, imp) = crate::c03::both_sides(rq, m);
+        st.count(&format!("outcome={}", mm.split(' ').next().unwrap_or("")));
+        st.case(rq, &mm, &imp, true);
+    }
+    rep.streams.push(st);
+    rep.oracles.push(or);
+}
+
 // ---------------------------------------------------------------------------------------------------
 // oracle: f against p ++ f on the real library
 
@@ -1171,6 +1247,7 @@ pub fn run(driver: &Driver, seed: u64, thorough: bool, replay: Option<&Value>) -
             word_streams(driver, seed, thorough, &mut rep);
             load_streams(driver, seed, thorough, &mut rep);
             scan_streams(driver, seed, thorough, &mut rep);
+            readobj_streams(driver, seed, thorough, &mut rep);
         }
         return rep;
     }
@@ -1179,6 +1256,7 @@ pub fn run(driver: &Driver, seed: u64, thorough: bool, replay: Option<&Value>) -
     word_streams(driver, seed, thorough, &mut rep);
     load_streams(driver, seed, thorough, &mut rep);
     scan_streams(driver, seed, thorough, &mut rep);
+    readobj_streams(driver, seed, thorough, &mut rep);
     prefix_oracles(seed, thorough, &mut rep, None);
     rep
 }
